@@ -96,11 +96,11 @@ Section InferInst.
       destruct b; try discriminate Kb; cbn [recv] in Hr; try discriminate Hr. destruct x; cbn [inst] in Hi; try discriminate Hi.
       apply andb_true_iff in Hr. destruct Hr as [Hsz Hr]. apply andb_true_iff in Hi. destruct Hi as [Hisz Hi].
       cbn [inst]. rewrite (in_size_sub _ _ _ _ _ Hsz Hisz). cbn [andb].
-      destruct (hi0 =? 0) eqn:Eh.
-      { apply Z.eqb_eq in Eh. subst hi0. rewrite (zlen_nil_of_size _ _ _ Hisz eq_refl). apply orb_true_r. }
+      destruct (hi0 <=? 0) eqn:Eh.
+      { rewrite (zlen_nil_of_size _ _ _ Hisz Eh). apply orb_true_r. }
       cbn [orb] in Hr. cbn [K] in Ka, Kb.
       apply orb_true_iff in Kb. destruct Kb as [Kb|Kb].
-      { apply andb_true_iff in Kb. destruct Kb as [_ Kb]. rewrite Kb in Eh. discriminate. }
+      { apply andb_true_iff in Kb. destruct Kb as [_ Kb]. apply Z.eqb_eq in Kb. apply Z.leb_gt in Eh. lia. }
       apply orb_true_iff in Ka. destruct Ka as [Ka|Ka].
       { (* a = Array[Unit,0,0] accepts only size [0,0] *)
         apply andb_true_iff in Ka. destruct Ka as [Ka Kh]. apply Z.eqb_eq in Kh. subst hi.
@@ -113,11 +113,11 @@ Section InferInst.
       destruct b; try discriminate Kb; cbn [recv] in Hr; try discriminate Hr. destruct x; cbn [inst] in Hi; try discriminate Hi.
       apply andb_true_iff in Hr. destruct Hr as [Hsz Hr]. apply andb_true_iff in Hi. destruct Hi as [Hisz Hi].
       cbn [inst]. rewrite (in_size_sub _ _ _ _ _ Hsz Hisz). cbn [andb].
-      destruct (hi0 =? 0) eqn:Eh.
-      { apply Z.eqb_eq in Eh. subst hi0. rewrite (zlen_nil_of_size _ _ _ Hisz eq_refl). reflexivity. }
+      destruct (hi0 <=? 0) eqn:Eh.
+      { rewrite (zlen_nil_of_size _ _ _ Hisz Eh). reflexivity. }
       cbn [orb] in Hr. cbn [K] in Ka, Kb.
       apply orb_true_iff in Kb. destruct Kb as [Kb|Kb].
-      { apply andb_true_iff in Kb. destruct Kb as [_ Kb]. rewrite Kb in Eh. discriminate. }
+      { apply andb_true_iff in Kb. destruct Kb as [_ Kb]. apply Z.eqb_eq in Kb. apply Z.leb_gt in Eh. lia. }
       apply orb_true_iff in Ka. destruct Ka as [Ka|Ka].
       { apply andb_true_iff in Ka. destruct Ka as [Ka Kh]. apply Z.eqb_eq in Kh. subst hi.
         unfold size_sub in Hsz. apply andb_true_iff in Hsz. destruct Hsz as [_ Hsz].
